@@ -62,10 +62,22 @@ type op struct {
 }
 
 type tcase struct {
-	Kind string `json:"kind"` // "z" or "l"
-	Seed int64  `json:"seed"` // seed of math/rand for the tower heights
+	Kind string `json:"kind"`           // "z" or "l"
+	Seed int64  `json:"seed"`           // seed of math/rand for the tower heights
+	Burn int    `json:"burn,omitempty"` // rand.Uint32 draws thrown away after seeding (legs3.go: aims the next towers at heights 11/12)
 	Ops  []op   `json:"ops"`
 }
+
+// seedTowers re-seeds math/rand's global source for a case and burns c.Burn draws.
+func seedTowers(c tcase) {
+	rand.Seed(c.Seed)
+	for i := 0; i < c.Burn; i++ {
+		rand.Uint32()
+	}
+}
+
+// tallest tower read back from the real list during the last exec (legs3.go checks that its aim was reached)
+var maxHeightSeen int
 
 func b2i(b bool) int {
 	if b {
@@ -229,7 +241,8 @@ func execZ(c tcase, rec *hxlib.Run) (fails []failure, nontrivial bool) {
 		}
 		fails = append(fails, failure{key, fmt.Sprintf(format, a...)})
 	}
-	rand.Seed(c.Seed)
+	seedTowers(c)
+	maxHeightSeen = 0
 	zs := zset.NewSortedSet()
 	ref := map[int]int64{}
 	if rec != nil {
@@ -361,6 +374,9 @@ func execZ(c tcase, rec *hxlib.Run) (fails []failure, nontrivial bool) {
 				panic("harness: unknown op " + o.Op)
 			}
 		})
+		if height > maxHeightSeen {
+			maxHeightSeen = height
+		}
 		if pn != "" {
 			got = "panic"
 			fail("panic:"+o.Op, "op %d %s panicked: %s", i, o.line(), pn)
@@ -369,6 +385,9 @@ func execZ(c tcase, rec *hxlib.Run) (fails []failure, nontrivial bool) {
 			line, ans := o.line(), got
 			if o.Op == "zadd" {
 				line = fmt.Sprintf("%s %d", line, height)
+				if height >= 9 {
+					rec.Count(fmt.Sprintf("tower-height:%d", height))
+				}
 			}
 			if mutating(o.Op) && pn == "" {
 				ans += " # " + zs.VerifList().VerifShape()
@@ -432,7 +451,8 @@ func execL(c tcase, rec *hxlib.Run) (fails []failure, nontrivial bool) {
 		}
 		fails = append(fails, failure{key, fmt.Sprintf(format, a...)})
 	}
-	rand.Seed(c.Seed)
+	seedTowers(c)
+	maxHeightSeen = 0
 	zsl := zset.NewZSkipList()
 	var content []pair // reference content, kept sorted by (score, member)
 	resort := func() {
@@ -597,6 +617,9 @@ func execL(c tcase, rec *hxlib.Run) (fails []failure, nontrivial bool) {
 				panic("harness: unknown op " + o.Op)
 			}
 		})
+		if height > maxHeightSeen {
+			maxHeightSeen = height
+		}
 		if pn != "" {
 			got = "panic"
 			fail("L:panic:"+o.Op, "op %d %s panicked: %s", i, o.line(), pn)
@@ -671,7 +694,7 @@ func one(r *hxlib.Run, c tcase) {
 		pb := probeLog[0]
 		probeFatal = true
 		keep := hxlib.DDMin(len(c.Ops), func(keep []int) bool {
-			cand := tcase{Kind: c.Kind, Seed: c.Seed}
+			cand := tcase{Kind: c.Kind, Seed: c.Seed, Burn: c.Burn}
 			for _, j := range keep {
 				cand.Ops = append(cand.Ops, c.Ops[j])
 			}
@@ -684,7 +707,7 @@ func one(r *hxlib.Run, c tcase) {
 			return false
 		})
 		probeFatal = false
-		small := tcase{Kind: c.Kind, Seed: c.Seed}
+		small := tcase{Kind: c.Kind, Seed: c.Seed, Burn: c.Burn}
 		for _, j := range keep {
 			small.Ops = append(small.Ops, c.Ops[j])
 		}
@@ -697,7 +720,7 @@ func one(r *hxlib.Run, c tcase) {
 		}
 		seen[f.key] = true
 		keep := hxlib.DDMin(len(c.Ops), func(keep []int) bool {
-			cand := tcase{Kind: c.Kind, Seed: c.Seed}
+			cand := tcase{Kind: c.Kind, Seed: c.Seed, Burn: c.Burn}
 			for _, j := range keep {
 				cand.Ops = append(cand.Ops, c.Ops[j])
 			}
@@ -709,7 +732,7 @@ func one(r *hxlib.Run, c tcase) {
 			}
 			return false
 		})
-		small := tcase{Kind: c.Kind, Seed: c.Seed}
+		small := tcase{Kind: c.Kind, Seed: c.Seed, Burn: c.Burn}
 		for _, j := range keep {
 			small.Ops = append(small.Ops, c.Ops[j])
 		}
@@ -793,11 +816,15 @@ func bounds(r *hxlib.Rand, scores []int64, mode int) (int64, int64) {
 	return a, b
 }
 
-func randomZ(r *hxlib.Run, n int) tcase {
+func randomZ(r *hxlib.Run, n int) tcase { return randomZFrom(r, n, nil) }
+
+// randomZFrom: a random history that continues the given prefix.
+func randomZFrom(r *hxlib.Run, n int, prefix []op) tcase {
 	c := tcase{Kind: "z", Seed: int64(r.R.U64() >> 1)}
 	nm := r.R.Pick(4, 8, 8, 16, 40)
 	mode := r.R.Pick(0, 0, 1, 2)
-	cur := map[int]int64{}
+	c.Ops = append(c.Ops, prefix...)
+	cur := replayRef(prefix)
 	for i := 0; i < n; i++ {
 		e := r.R.Range(1, nm)
 		var scores []int64
@@ -878,11 +905,18 @@ func replayRef(ops []op) map[int]int64 {
 	return ref
 }
 
-func randomL(r *hxlib.Run, n int) tcase {
+func randomL(r *hxlib.Run, n int) tcase { return randomLFrom(r, n, nil) }
+
+// randomLFrom: a random history that continues the given prefix of linsert ops (distinct members).
+func randomLFrom(r *hxlib.Run, n int, prefix []op) tcase {
 	c := tcase{Kind: "l", Seed: int64(r.R.U64() >> 1)}
 	nm := r.R.Pick(6, 12, 40)
 	mode := r.R.Pick(0, 0, 1, 2)
 	cur := map[int]int64{} // member -> score (members are kept unique: the calling contract of Insert)
+	for _, o := range prefix {
+		c.Ops = append(c.Ops, o)
+		cur[o.E] = o.A
+	}
 	for i := 0; i < n; i++ {
 		e := r.R.Range(1, nm)
 		var scores []int64
@@ -1092,6 +1126,13 @@ func main() {
 		one(r, randomZ(r, r.R.Range(300, 800)))
 		one(r, randomL(r, r.R.Range(300, 800)))
 	}
+	// legs3.go: machine-word extremes for every int parameter, towers of height 10..12, member types, held listings
+	for _, c := range wordCases() {
+		r.Count("leg:words")
+		one(r, c)
+	}
+	towerLegs(r)
+	memberLegs(r)
 	if r.Search {
 		if r.Failed() {
 			r.Note("search legs not run: the thorough generators already produced a failing input")
